@@ -449,6 +449,148 @@ def _d8(chk, fb):
     chk.floor("D8", "transition models with an element accessor and a matrix view", n, 2)
 
 
+def _d9(chk, fb):
+    """log-domain vectors are shifted before they are exponentiated: a local vector filled with log-likelihoods and then handed
+    to VectorTools::sumExp as the exponent argument is, on every path from the (last) fill to that call, reduced by its maximum
+    ('v -= v[whichMax(v)]' / 'v -= max(v)').  Without the shift every exp() underflows to zero once the log-likelihood is below
+    about -745, and the ratios built from these sums are 0/0.  A helper that receives the vector by reference is read the same
+    way (it fills, shifts, or fills and always shifts).  A path from a fill to the call that passes no shift is refuted"""
+    n = 0
+
+    def classify(g, is_v, vname, depth=0):
+        """(fill nodes, shift nodes) of g for the vector recognised by is_v"""
+        fills, shifts = [], []
+        for x in g.all_nodes():
+            if x["k"] == "BinaryOperator" and x.get("op") == "=":
+                l_ = strip(kids(x)[0])
+                if is_call(l_) and l_["callee"]["name"] == "operator[]" and "obj" in l_ and is_v(g.obj(l_)):
+                    fills.append(x)
+            elif is_call(x) and x["callee"]["name"] == "operator-=":
+                tgt, arg = (g.obj(x), g.args(x)[0]) if "obj" in x and g.args(x) else ((g.args(x)[0], g.args(x)[1]) if len(g.args(x)) == 2 else (None, None))
+                if tgt is not None and is_v(tgt) and ((vname + "[") in render(arg) or ("max(" + vname) in render(arg)):
+                    shifts.append(x)
+            elif is_call(x) and "obj" in x and is_v(g.obj(x)) and x["callee"]["name"] in ("operator=", "assign", "push_back"):
+                fills.append(x)
+            elif is_call(x) and depth < 2 and x["callee"].get("inrepo") and x["callee"]["name"] != "sumExp":
+                pt = x["callee"].get("ptypes") or []
+                for k_, a_ in enumerate(g.args(x)):
+                    if is_v(a_) and k_ < len(pt) and pt[k_].endswith("&") and not pt[k_].startswith("const "):
+                        for t in fb.targets(x, static_type_only=True):
+                            if t.body is None or k_ >= len(t.params):
+                                continue
+                            pid, pname = t.params[k_].get("id"), t.params[k_]["name"]
+                            tf, ts = classify(t, lambda y, pname=pname: strip(y) is not None and strip(y)["k"] == "DeclRefExpr" and strip(y)["decl"]["name"] == pname, pname, depth + 1)
+                            if tf:
+                                tsb = {t.cfg.stmt_block(z) for z in ts} - {None}
+                                ends_shifted = bool(ts) and all(e1.must_pass(t.cfg, tsb, start=t.cfg.stmt_block(z))[0] or t.cfg.stmt_block(z) in tsb for z in tf)
+                                # (a fill and a shift in one block: the shift has to come later)
+                                if ends_shifted:
+                                    shifts.append(x)
+                                else:
+                                    fills.append(x)
+                            elif ts:
+                                shifts.append(x)
+        return fills, shifts
+    for f in fb.concrete_fns():
+        if f.body is None or not f.relfile.endswith("Hmm/LogsumHmmLikelihood.cpp"):
+            continue
+        cfg = f.cfg
+        calls = [c for c in f.calls() if c["callee"]["name"] == "sumExp" and f.args(c) and strip(f.args(c)[0])["k"] == "DeclRefExpr"]
+        byvar = {}
+        for c in calls:
+            d_ = strip(f.args(c)[0])["decl"]
+            if any(p_["name"] == d_["name"] for p_ in f.params):
+                continue
+            byvar.setdefault(d_["id"], []).append(c)
+        for vid, cs in sorted(byvar.items()):
+            vname = strip(f.args(cs[0])[0])["decl"]["name"]
+
+            def is_v(x):
+                x = strip(x)
+                return x is not None and x["k"] == "DeclRefExpr" and x["decl"]["id"] == vid
+            fills, shifts = classify(f, is_v, vname)
+            if not fills and not shifts:
+                continue
+            sblocks = {cfg.stmt_block(x) for x in shifts} - {None}
+            for c in cs:
+                n += 1
+                cb = cfg.stmt_block(c)
+                con = "shifted-before-exp:%s@%s" % (vname, c.get("l"))
+                bad = None
+                for fl in fills:
+                    fbk = cfg.stmt_block(fl)
+                    if fbk is None or cb is None:
+                        continue
+                    if fbk == cb:
+                        inb = [x for x in shifts if cfg.stmt_block(x) == cb and e1.earlier_in_block(cfg, fl, x) and e1.earlier_in_block(cfg, x, c)]
+                        if e1.earlier_in_block(cfg, fl, c) and not inb:
+                            bad = fl
+                        continue
+                    if cb in sblocks and any(cfg.stmt_block(x) == cb and e1.earlier_in_block(cfg, x, c) for x in shifts):
+                        continue
+                    if e1.path_exists(cfg, fbk, cb, avoid_blocks=sblocks - {fbk}):
+                        bad = fl
+                if bad is not None:
+                    chk.refuted("D9", f.key, con, f.loc(c),
+                                "'%s' is filled with log-likelihoods at line %s and reaches VectorTools::sumExp(%s, ...) at line %s along a path without the shift by its maximum: for a log-likelihood below about -745 every exp() underflows to 0 and the quotient of the two sums is 0/0 (NaN)" % (
+                                    vname, bad.get("l"), vname, c.get("l")),
+                                witness={"input": "a sequence long enough (or emissions small enough) for the total log-likelihood to fall below -745; query the derivative"})
+                else:
+                    chk.proved("D9", f.key, con, f.loc(c), "every path from a fill of '%s' to this sumExp passes '%s -= max'" % (vname, vname))
+    chk.floor("D9", "sumExp calls on a local log-domain vector", n, 6)
+
+
+def _d10(chk, fb):
+    """positional tables keep their order: the per-segment tables of the likelihood classes (partialLogLikelihoods_ and its
+    derivative siblings) are read by segment position by the posterior / per-site queries, so a permuting algorithm (sort,
+    reverse, partition, shuffle ...) may only run on a copy.  A call whose range is the member itself, or a reference local bound
+    to it, is refuted when another member function indexes that member; a call on a value copy is proved"""
+    PERM = ("sort", "stable_sort", "reverse", "partition", "stable_partition", "rotate", "random_shuffle", "shuffle", "nth_element", "partial_sort", "unique")
+    n = 0
+    fns = [f for f in fb.concrete_fns() if f.body is not None and "/Numeric/Hmm/" in f.relfile and f.cls]
+    indexed = {}
+    for g in fns:
+        for x in g.calls():
+            if x["callee"]["name"] in ("operator[]", "at", "begin", "cbegin", "front", "back") and "obj" in x:
+                o = strip(g.obj(x))
+                if o is not None and o["k"] == "MemberExpr" and o["member"].get("this"):
+                    indexed.setdefault(o["member"]["qname"], set()).add(g.key)
+    for f in fns:
+        decls = {}
+        for x in f.all_nodes():
+            if x["k"] == "DeclStmt":
+                for d in x["decls"]:
+                    decls[d["id"]] = d
+        for c in f.calls():
+            if c["callee"]["name"] not in PERM or not (c["callee"].get("qname") or "").startswith("std::") or not f.args(c):
+                continue
+            a0 = strip(f.args(c)[0])
+            if not (is_call(a0) and a0["callee"]["name"] in ("begin", "rbegin") and "obj" in a0):
+                continue
+            o = strip(f.obj(a0))
+            hops = 0
+            while o is not None and o["k"] == "DeclRefExpr" and o["decl"]["id"] in decls and (decls[o["decl"]["id"]].get("ty") or "").endswith("&") and decls[o["decl"]["id"]].get("init") is not None and hops < 3:
+                o = strip(decls[o["decl"]["id"]]["init"])
+                hops += 1
+            n += 1
+            con = "permutes:" + render(f.args(c)[0])[:40]
+            if o is not None and o["k"] == "MemberExpr" and o["member"].get("this"):
+                q = o["member"]["qname"]
+                others = sorted(indexed.get(q, set()) - {f.key})
+                if others:
+                    chk.refuted("D10", f.key, con, f.loc(c),
+                                "std::%s reorders the member '%s' itself%s, which %s read(s) by position: after this call the entry of a segment is no longer at the segment's index" % (
+                                    c["callee"]["name"], o["member"]["name"], " (through a reference local)" if hops else "", others[0].split("(")[0]),
+                                witness={"history": "two or more break points with different segment likelihoods; compute, then query the posterior / per-site likelihoods"})
+                else:
+                    chk.unknown("D10", f.key, con, f.loc(c), "std::%s on member '%s', which no other member function reads by position" % (c["callee"]["name"], o["member"]["name"]))
+            elif o is not None and o["k"] == "DeclRefExpr" and o["decl"]["id"] in decls and not (decls[o["decl"]["id"]].get("ty") or "").endswith(("&", "*")):
+                chk.proved("D10", f.key, con, f.loc(c), "std::%s runs on the local copy '%s'" % (c["callee"]["name"], o["decl"]["name"]))
+            else:
+                chk.unknown("D10", f.key, con, f.loc(c), "range of std::%s not resolved to a member or a local copy" % c["callee"]["name"])
+    chk.floor("D10", "permuting algorithm calls in the HMM units", n, 2)
+
+
 def run(chk, fb, tier):
     chk.rule("D1", "every fireParameterChanged below AbstractHmmLikelihood resets the derivative memo keys and clears the backward lazy flags on every path that recomputes the forward pass")
     chk.rule("D2", "a method setting upToDate_ = true has written every member that some getter returns under 'if (!upToDate_)'; fireParameterChanged clears the flag unconditionally")
@@ -464,6 +606,10 @@ def run(chk, fb, tier):
     _d7(chk, fb)
     chk.rule("D8", "Pij(i, j) and the entry getPij() stores at (i, j) are the same expression in every built-in transition model")
     _d8(chk, fb)
+    chk.rule("D9", "a local vector of log-likelihoods handed to VectorTools::sumExp as exponents is reduced by its maximum on every path from its last fill to the call")
+    _d9(chk, fb)
+    chk.rule("D10", "permuting std algorithms in the HMM likelihood classes run on value copies, never on a member table (directly or through a reference local) that other members read by position")
+    _d10(chk, fb)
     from . import argswap as _argswap
     chk.rule("DA", "argument/parameter name agreement at forwarding calls in the anchored units (same-typed parameters must not be swapped)")
     _af = ('src/Bpp/Numeric/Hmm/HmmLikelihood.h', 'src/Bpp/Numeric/Hmm/HmmLikelihood.cpp', 'src/Bpp/Numeric/Hmm/RescaledHmmLikelihood.cpp', 'src/Bpp/Numeric/Hmm/LowMemoryRescaledHmmLikelihood.cpp', 'src/Bpp/Numeric/Hmm/LogsumHmmLikelihood.cpp', 'src/Bpp/Numeric/Hmm/AbstractHmmTransitionMatrix.cpp', 'src/Bpp/Numeric/Hmm/FullHmmTransitionMatrix.cpp', 'src/Bpp/Numeric/Hmm/AutoCorrelationTransitionMatrix.cpp', 'src/Bpp/Numeric/NumTools.h')
